@@ -82,6 +82,7 @@ type genState struct {
 	nftOwner map[uint64]int
 	nftAddr  string
 	jailed   map[int]bool
+	offender   int
 	wrong      map[int]int  // wrong answers a validator has committed to so far
 	gone       map[int]bool // validators that withdrew their whole stake
 	taken      map[int]int64 // units of power a validator took back
@@ -150,6 +151,14 @@ func GenHistory(seed uint64, idx int, p Profile) History {
 	gen.Chains = [][]string{{"1"}, {"1", "137"}, {"1"}}[r.Intn(3)]
 	// with an unbonding time of a nanosecond an emptied validator is REMOVED by the staking end-block one block later
 	gen.FastUnbond = p.Jail && r.Chance(40)
+	g.offender = -1
+	if gen.FastUnbond && r.Chance(40) {
+		// directed: one validator answers wrongly in every round, exceeds the tolerated misses, takes its whole stake back
+		// one block before a slash window closes and has been removed from staking when the closing tally runs
+		g.offender = r.Intn(nv)
+		gen.MaxMiss = 1
+		gen.Window = gen.VotePeriod * 6
+	}
 	g.h.Genesis = gen
 	for i := nv; i < nv+4; i++ {
 		g.users = append(g.users, i)
@@ -593,8 +602,11 @@ func (g *genState) oracleMsgs() []Event {
 					continue
 				}
 				owner := ownerPool[0]
-				if r.Chance(g.p.Wrongness) {
-					owner = ownerPool[r.Intn(len(ownerPool))]
+				if r.Chance(g.p.Wrongness) || v == g.offender {
+					owner = ownerPool[1+r.Intn(len(ownerPool)-1)]
+					if v != g.offender && r.Chance(20) {
+						owner = ownerPool[0]
+					}
 					if owner != ownerPool[0] {
 						g.wrong[v]++
 					}
@@ -739,6 +751,11 @@ func (g *genState) block() {
 			envs = append(envs, Env{Kind: "nft_transfer", From: g.nftOwner[tok], To: to, Token: tok})
 			g.nftOwner[tok] = to
 		}
+	}
+	if g.offender >= 0 && !g.gone[g.offender] && g.height > int64(g.h.Genesis.Window) && g.closeWithin(1) && !g.closeWithin(0) {
+		envs = append(envs, Env{Kind: "undelegate", Val: g.offender, Amount: "0"})
+		g.gone[g.offender] = true
+		g.jailed[g.offender] = true
 	}
 	if g.p.Jail && r.Chance(8) {
 		// a validator takes its stake back: all of it (it leaves the bonded set and is removed from staking once the
